@@ -6,7 +6,7 @@ import re
 from framework import ROOT
 import props.e4common as e4
 
-PROPS = ["Nsq.Props.C15"]
+PROPS = ["Nsq.Props.C15", "Nsq.Props.C15Admin"]
 F2_KEY = "identify-negative-size"
 
 
